@@ -506,7 +506,7 @@ class Component( ComponentLevel7 ):
       # enough. Thus I'm just removing them right now.
       new_connect_order = []
       for (x, y) in parent._dsl.connect_order:
-        if x not in removed_signals and y not in removed_signals: # TODO method port
+        if x not in removed_connectables and y not in removed_connectables:
           new_connect_order.append( (x, y) )
 
       parent._dsl.connect_order = new_connect_order
